@@ -272,10 +272,13 @@ def run(ctx):
         cfgs = []
     pool = cf.ThreadPoolExecutor(max_workers=8)
     mc = [pool.submit(tlcmod.run_tlc, "rpc", "JsonRpcConn", cfg, workers=4, timeout_s=1500) for cfg in cfgs]
-    sched_path = os.path.join(ctx.scratch, "sched.ndjson")
-    sched_cfg = "JsonRpcSched_quick.cfg"
-    sched_fut = None if ctx.replay else pool.submit(tlcmod.run_tlc, "rpc", "JsonRpcSched", sched_cfg, workers=4,
-                                                    timeout_s=1500, cases_path=sched_path)
+    sched_cfgs = ["JsonRpcSched_quick.cfg"] if quick else ["JsonRpcSched_quick.cfg", "JsonRpcSched_inc.cfg",
+                                                            "JsonRpcSched_notif.cfg"]
+    sched_futs = [] if ctx.replay else [
+        (cfg, os.path.join(ctx.scratch, "sched-%d.ndjson" % k),
+         pool.submit(tlcmod.run_tlc, "rpc", "JsonRpcSched", cfg, workers=4, timeout_s=2400,
+                     cases_path=os.path.join(ctx.scratch, "sched-%d.ndjson" % k)))
+        for k, cfg in enumerate(sched_cfgs)]
 
     # 2. harness-level observations (caps, crashes)
     good = []
@@ -341,19 +344,25 @@ def run(ctx):
             todo = todo[idx + 1:]
     # 5. schedule replay: behaviours of the design model stepped through the real Connection
     nrep = 0
-    if sched_fut is not None:
+    if sched_futs:
         import random
-        r = sched_fut.result()
-        ctx.tlc_runs.append({"module": "JsonRpcSched", "cfg": sched_cfg, "generated": r.generated,
-                             "distinct": r.distinct, "cases": r.cases, "wall_s": round(r.wall, 1), "violated": r.violated})
-        ctx.states += r.distinct
-        ctx.transitions += r.generated
-        ctx.log("TLC JsonRpcSched/%s: distinct=%d schedules=%d %.1fs ok=%s" % (sched_cfg, r.distinct, r.cases, r.wall, r.ok))
-        if not r.ok:
-            raise core.Inconclusive("schedule export failed (%s):\n%s" % (r.violated, r.log_tail[-3000:]))
-        leaf, total = maximal_schedules(sched_path)
         rng = random.Random(ctx.seed)
-        pick = leaf if not quick else rng.sample(leaf, min(len(leaf), 400))
+        pick, total, nleaf = [], 0, 0
+        for sched_cfg, sched_path, fu in sched_futs:
+            r = fu.result()
+            ctx.tlc_runs.append({"module": "JsonRpcSched", "cfg": sched_cfg, "generated": r.generated,
+                                 "distinct": r.distinct, "cases": r.cases, "wall_s": round(r.wall, 1), "violated": r.violated})
+            ctx.states += r.distinct
+            ctx.transitions += r.generated
+            ctx.log("TLC JsonRpcSched/%s: distinct=%d schedules=%d %.1fs ok=%s" % (sched_cfg, r.distinct, r.cases, r.wall, r.ok))
+            if not r.ok:
+                raise core.Inconclusive("schedule export failed (%s):\n%s" % (r.violated, r.log_tail[-3000:]))
+            leaf, tot = maximal_schedules(sched_path)
+            total += tot
+            nleaf += len(leaf)
+            cap = 400 if quick else 6000
+            pick += leaf if len(leaf) <= cap else rng.sample(leaf, cap)
+        leaf = range(nleaf)
         reps = replay_schedules(ctx, h, pick)
         nrep = len(reps)
         outc = {}
